@@ -190,7 +190,8 @@ def compare_csv_model(ctx, tree, results, iters, comments, header, rows,
     h = list(tree['hierarchy'])
     taint = [lv for lv in h if ou.is_tainted(ou.readable_level(tree, lv))]
     inp = {'tree': ou.tree_json(tree, st),
-           'taint': [st.id(lv) for lv in taint],
+           'readableText': [[st.id(lv), ou.readable_level(tree, lv)]
+                            for lv in h],
            'bootstrapIteration': iters,
            'results': [ou.record_json(r, h, st) for r in results],
            'metadataName': None if json_name is None else st.id(json_name),
@@ -214,6 +215,19 @@ def compare_csv_model(ctx, tree, results, iters, comments, header, rows,
             'succeeds', detail, fn)
         return
     conf_key, conf_label = conf_of(iters)
+    # the model's own substring test (taintOf) vs the harness' and the real
+    # column names
+    if [st.str(i) for i in out['taint']] != taint or any(
+            cc[1] != '%s_%s' % (ou.readable_level(tree, st.str(cc[0])),
+                                conf_key)
+            or cc[2] != '%s_%s' % (ou.readable_level(tree, st.str(cc[0])),
+                                   conf_label)
+            for cc in out['confColumns']):
+        corr_violation(ctx, 'C15/correspondence/csv/column-typing',
+                       'model taintOf / column names differ from the '
+                       'harness: %r vs %r' % (out['taint'], taint), detail,
+                       'CTM.Output.taintOf ~ blob_to_df column typing')
+        return
     if out['confIsCorrelation'] != (conf_key == 'avg_correlation'):
         corr_violation(ctx, 'C15/correspondence/csv/confidence-key',
                        'confidenceKey differs', detail,
@@ -275,7 +289,8 @@ def compare_csv_model(ctx, tree, results, iters, comments, header, rows,
                 ok = got == st.str(cell['s'])
             elif 'raw' in cell:
                 try:
-                    ok = Fraction(float(got)) == Fraction(*cell['raw'])
+                    ok = Fraction(float(got)) == Fraction(*cell['raw']) \
+                        and got == repr(float(got))
                 except ValueError:
                     ok = False
             else:
@@ -404,6 +419,12 @@ def check_direct(ctx, detail):
                 if fails:
                     pred_failed = not only_modelled(fails)
                     for cls, msg in first_of_each_class(fails):
+                        if cls.startswith('tie/'):
+                            corr_violation(
+                                ctx, 'C15/csv/' + cls, msg, detail,
+                                'CTM.Output.taintOf ~ blob_to_df column '
+                                'typing (csv_confidence_formatted_iff)')
+                            continue
                         ctx.violation(
                             'C15/csv/' + cls,
                             'CSV output disagrees with the JSON output: %s'
@@ -742,18 +763,36 @@ def check_pipeline(ctx, spec):
             fails.append(('tree-embedded', 'embedded taxonomy_tree is not '
                           'the input taxonomy without cell lists'))
         # --- embedded marker table lists what was used
+        # (theorem embedded_markers_are_used; the model side of this table is
+        # compared by C08's suite, `markers.stage`, on its own runs)
         mg = out.get('marker_genes', {})
+        parents = ou.run_tree_parents(tree, spec['flatten'],
+                                      spec['drop_level'])
+        if sorted(mg.keys()) != sorted(parents.keys()):
+            fails.append(('markers-embedded/keys', 'marker_genes has keys %r,'
+                          ' the run tree has parents %r'
+                          % (sorted(mg.keys()), sorted(parents.keys()))))
+        for key, n_kids in parents.items():
+            if n_kids < 2 and mg.get(key) != []:
+                fails.append(('markers-embedded/single-child', 'marker_genes'
+                              '[%r] = %r for a parent with %d children'
+                              % (key, mg.get(key), n_kids)))
+                break
+        traced = set()
         for ev in events:
             if ev.get('kind') != 'node':
                 continue
             key = 'None' if ev['parent'] is None else '%s/%s' % (
                 ev['parent'][0], ev['parent'][1])
-            if key not in mg or sorted(mg[key]) != sorted(
-                    ev['reference_genes']) or sorted(mg[key]) != sorted(
-                    ev['query_genes']):
-                fails.append(('markers-embedded', 'marker_genes[%r] is not '
-                              'the gene list used at that node' % key))
+            traced.add(key)
+            if mg.get(key) != ev['reference_genes'] or \
+                    mg.get(key) != ev['query_genes'] or \
+                    parents.get(key, 0) < 2:
+                fails.append(('markers-embedded', 'marker_genes[%r] = %r is '
+                              'not the gene list used at that node (%r)'
+                              % (key, mg.get(key), ev['reference_genes'])))
                 break
+        ctx.count('pipeline:marker_nodes_traced', len(traced))
         # --- HDF5
         h5 = d / 'out' / 'out.h5'
         back = None
@@ -808,6 +847,12 @@ def check_pipeline(ctx, spec):
             if cls in seen:
                 continue
             seen.add(cls)
+            if '/tie/' in cls:
+                corr_violation(
+                    ctx, 'C15/pipeline/' + cls, msg, spec,
+                    'CTM.Output.taintOf ~ blob_to_df column typing '
+                    '(csv_confidence_formatted_iff)')
+                continue
             ctx.violation('C15/pipeline/' + cls, msg, dict(spec, fails=[
                 list(x) for x in fails[:5]]))
         # --- model
